@@ -44,7 +44,8 @@ is checked on its own.
 Limits
 ------
 * keep_edges=True: when two hyperedges shrink to the same node set, or one shrinks to nothing, the statement does
-  not say which weight / metadata survives; those runs only get the node clauses (counted as "ambiguous").
+  not say which weight / metadata survives (nor whether the merged hyperedge passes the hyperedge criteria); those
+  identities are left unconstrained (counted), every other hyperedge of the run is still checked.
 * DirectedHypergraph is not driven (the property's quantifier names Hypergraph, temporal and multiplex).
 * alpha other than the default is outside the statement's quantifier and not exercised (note: the code ignores it).
 * criteria whose allowed list contains None (which the code lets match a missing attribute) are not generated.
@@ -254,27 +255,28 @@ def matches(md, crit):
 
 
 def expected_survivors(cls, nodes, edges, nc, ec, mode, keep):
-    """The statement, executed on the ghost model.  Returns (nodes, edges or None if ambiguous)."""
+    """The statement, executed on the ghost model.  Returns (nodes, hyperedges, ambiguous identities): with
+    keep_edges the identities onto which two hyperedges collapse, and the empty one, are left unconstrained."""
     want = mode == "keep"
     removed = set() if nc is None else {v for v, md in nodes.items() if matches(md, nc) != want}
     surv_nodes = {v: md for v, md in nodes.items() if v not in removed}
-    out = {}
+    out, ambiguous = {}, set()
     for idt, (w, md) in edges.items():
         ms = members(cls, idt)
         if ms & removed:
             if not keep:
                 continue
-            ms2 = ms - removed
-            if not ms2:
-                return surv_nodes, None  # shrinks to nothing: statement silent
-            idt = with_members(cls, idt, ms2)
+            idt = with_members(cls, idt, ms - removed)
+            if not ms - removed:
+                ambiguous.add(idt)  # shrinks to nothing: the statement does not say what becomes of it
         if idt in out:
-            return surv_nodes, None  # two hyperedges collapse: statement silent about the winner
+            ambiguous.add(idt)  # two hyperedges collapse: the statement does not say whose weight/metadata wins
         out[idt] = (w, md)
-    # a shrunk hyperedge may coincide with an untouched one that is visited later: covered by the `in out` test
+    for idt in ambiguous:
+        out.pop(idt, None)
     if ec is not None:
         out = {idt: wm for idt, wm in out.items() if matches(wm[1], ec) == want}
-    return surv_nodes, out
+    return surv_nodes, out, ambiguous
 
 
 def fn_filter(cls):
@@ -282,11 +284,16 @@ def fn_filter(cls):
 
 
 def _via(ex):
+    """Names the container method at which a filter run died: the first frame below filter_hypergraph, or
+    '<callee> call' when filter_hypergraph's own call was rejected for its arity."""
+    import re
     names = [f.name for f in traceback.extract_tb(ex.__traceback__)]
     if "filter_hypergraph" in names:
         i = names.index("filter_hypergraph")
         if i + 1 < len(names):
             return names[i + 1]
+        m = re.search(r"(\w+)\(\) (missing|takes|got)", str(ex)) if isinstance(ex, TypeError) else None
+        return f"{m.group(1)} call" if m else "filter_hypergraph"
     return names[-1] if names else "?"
 
 
@@ -319,7 +326,7 @@ def check_filter(rec, spec, nc, ec, mode, keep, register=True):
         rec.check(False, fn, RAISES, inp, None, msg + f" (raised in {via})", key=f"{fn}:{RAISES}|via {via}", replay=rp)
         return
     rec.check(True, fn, RAISES, None)
-    exp_nodes, exp_edges = expected_survivors(cls, nodes, edges, nc, ec, mode, keep)
+    exp_nodes, exp_edges, ambiguous = expected_survivors(cls, nodes, edges, nc, ec, mode, keep)
     try:
         got_nodes, got_edges = observe(cls, hg)
     except Exception as ex:
@@ -332,9 +339,9 @@ def check_filter(rec, spec, nc, ec, mode, keep, register=True):
     rec.check(all(got_nodes[v] == exp_nodes[v] for v in common), fn, F_NMD, inp,
               lambda: _js({repr(v): exp_nodes[v] for v in common}), lambda: _js({repr(v): got_nodes[v] for v in common}),
               replay=rp)
-    if exp_edges is None:
-        rec.count("filter: keep_edges runs with collapsing / vanishing hyperedges (node clauses only)")
-        return
+    if ambiguous:
+        rec.count("filter: keep_edges runs with collapsing / vanishing hyperedges (those identities left unconstrained)")
+        got_edges = {e: wm for e, wm in got_edges.items() if e not in ambiguous}
     clause = F_EDGES_K if keep else F_EDGES
     rec.check(set(got_edges) == set(exp_edges), fn, clause, inp, lambda: _js(set(exp_edges)),
               lambda: _js(set(got_edges)), replay=rp)
@@ -644,7 +651,7 @@ def run(ctx):
     ctx.rule("svh case = (weighted hypergraph, max_order); non-trivial = at least one hyperedge of size 2..max_order")
     ctx.assume("an item lacking an attribute named by a criteria dict does not match it (criteria never allow None)")
     ctx.assume("keep_edges=True: the statement is silent when hyperedges collapse onto each other or shrink to "
-               "nothing; such runs are only checked for the surviving nodes")
+               "nothing; those hyperedge identities are left unconstrained, everything else is checked")
     ctx.assume("exact rational binomial tail converted to float vs. scipy's binom.sf: absolute tolerance 1e-12")
     ctx.assume("multiple-testing threshold = step-up rule over i*alpha/C(n_a, n) (n_a distinct nodes in the size-n "
                "hyperedges, alpha = 0.01 default) as implemented and documented by the module, recomputed from the "
